@@ -143,6 +143,8 @@ def ref_split_commas(text):
                 j += 1
             if j == i:
                 return DONT_CARE if dont_care else REJECT   # empty unquoted item
+            if text[i:j].strip(' \t') == '':
+                return REJECT                               # an unquoted item made of blanks only is empty too
             items.append(text[i:j])
             i = j
         if i == n:
